@@ -4,7 +4,7 @@
 import json, re, sys
 p = "/verif/DESIGN.md"
 s = open(p).read()
-CACHE = ["R3d-hit", "R3d-stamp", "R3d-i", "R3d-ii", "R3d-iii", "R3d-iv"]
+CACHE = ["R3d-hit", "R3d-stamp", "R3d-i", "R3d-ii", "R3d-iii", "R3d-iv", "R3d-v"]
 def compress(rules):
     rules = list(dict.fromkeys(rules))
     if all(c in rules for c in CACHE):
